@@ -1,6 +1,8 @@
 package c14
 
 import (
+	"bufio"
+	"encoding/json"
 	"fmt"
 	"os"
 	"path/filepath"
@@ -569,4 +571,109 @@ func (rn *runner) runRandom(h []Step, crashAt []int) outcome {
 	}
 	o.evs = s.evs
 	return o
+}
+
+// ---------- replay of a saved segment ----------
+
+func init() { rt.Register("c14replay", Replay) }
+
+// Replay re-executes the steps of a recorded trace segment (arg replay=<segment.ndjson>) on the tree
+// under test - requests, restarts, environment changes, crash-and-continue points, and again every
+// transaction boundary of every request as a crash point - and writes a fresh trace.
+func Replay(r *rt.Run) error {
+	var file string
+	for _, a := range r.Args {
+		if strings.HasPrefix(a, "replay=") {
+			file = strings.TrimPrefix(a, "replay=")
+		}
+	}
+	if file == "" {
+		return fmt.Errorf("usage: c14replay replay=<segment.ndjson>")
+	}
+	lines, err := readNDJSON(file)
+	if err != nil {
+		return err
+	}
+	base := "/dev/shm"
+	if st, err := os.Stat(base); err != nil || !st.IsDir() {
+		base = os.TempDir()
+	}
+	dir, err := os.MkdirTemp(base, "kvh-c14r-")
+	if err != nil {
+		return err
+	}
+	defer os.RemoveAll(dir)
+	rn := &runner{dir: dir}
+	t := r.NewTrace("trace")
+	var s *session
+	var snaps []string
+	flush := func() {
+		if s != nil && snaps != nil {
+			s.crashViews(snaps)
+			snaps = nil
+		}
+	}
+	for _, m := range lines {
+		switch m["ev"] {
+		case "Reset":
+			flush()
+			if s != nil {
+				s.end()
+				emit(t, outcome{evs: s.evs})
+			}
+			up, _ := m["up"].(bool)
+			if s, err = rn.begin(up); err != nil {
+				return err
+			}
+		case "Req":
+			flush()
+			snaps, _ = s.request(reqFromFields(m), true)
+		case "Restart":
+			flush()
+			s.restart()
+		case "Env":
+			flush()
+			up, _ := m["up"].(bool)
+			s.env(up)
+		case "CrashGo":
+			k := int(m["k"].(float64)) - 1
+			if k < len(snaps) {
+				s.crashGo(snaps, k)
+			} else {
+				s.crashViews(snaps)
+			}
+			snaps = nil
+		case "Crash":
+			// regenerated by flush
+		}
+	}
+	flush()
+	if s != nil {
+		s.end()
+		emit(t, outcome{evs: s.evs})
+	}
+	r.Finish("re-execution of a recorded segment", false)
+	return nil
+}
+
+func readNDJSON(path string) ([]map[string]any, error) {
+	f, err := os.Open(path)
+	if err != nil {
+		return nil, err
+	}
+	defer f.Close()
+	var out []map[string]any
+	sc := bufio.NewScanner(f)
+	sc.Buffer(make([]byte, 1<<20), 1<<26)
+	for sc.Scan() {
+		if len(strings.TrimSpace(sc.Text())) == 0 {
+			continue
+		}
+		var m map[string]any
+		if err := json.Unmarshal(sc.Bytes(), &m); err != nil {
+			return nil, err
+		}
+		out = append(out, m)
+	}
+	return out, sc.Err()
 }
